@@ -1,9 +1,183 @@
-(* C07 property theorems: statements only. *)
-From Coq Require Import ZArith QArith List Bool.
-From QE Require Import Base.Num Base.LinAlg Base.Gauss C07.Model C07.Proofs.
+(* C07 property theorems: statements only, each closed by `exact`, with Print Assumptions. *)
+From Coq Require Import ZArith QArith List Bool Lia Lqa.
+From QE Require Import Base.Num Base.LinAlg Base.Gauss C06.Model C07.Model C07.Proofs.
 Import ListNotations.
+Local Open Scope Q_scope.
 
-Theorem C07_solve_checked_correct : forall n m (A B X : list (list Q)),
-  solve_checked n m A B = Some X -> meq n m (mmul n n m A X) B.
-Proof. exact solve_checked_correct. Qed.
-Print Assumptions C07_solve_checked_correct.
+(* Conventions: n states, k controls, j shocks; Qm k x k (control cost), Rm n x n (state cost),
+   N k x n; vectors are lists; qform n x M = x'Mx, bform k n u N x = u'Nx. *)
+
+(* completion of the square, every dimension: for symmetric Q, P and ANY F with S1 F = S2
+   (S1 = Q + beta B'PB, S2 = beta B'PA + N), for all x and u:
+   x'Rx + u'Qu + 2u'Nx + beta (Ax+Bu)'P(Ax+Bu) = x'P+x + (u+Fx)'S1(u+Fx), P+ = R - S2'F + beta A'PA *)
+Theorem C07_lq_complete_square : forall (n k : nat) (beta : Q) (Qm Rm A B N P F : list (list Q)),
+  msym k Qm -> msym n P ->
+  meq k n (mmul k k n (lq_S1 n k beta Qm B P) F) (lq_S2 n k beta A B N P) ->
+  forall x u : list Q,
+  stage_cost n k Qm Rm N x u + beta * qform n (vadd n (mvmul n n A x) (mvmul n k B u)) P
+  == qform n x (madd n n (msub n n Rm (mmul n k n (mtr k n (lq_S2 n k beta A B N P)) F)) (lq_S3 n beta A P))
+     + qform k (vadd k u (mvmul k n F x)) (lq_S1 n k beta Qm B P).
+Proof. exact lq_complete_square_vec. Qed.
+Print Assumptions C07_lq_complete_square.
+
+(* finite horizon (deterministic part), by induction on T: if T updates from Rf succeed and every
+   S1_t met is positive semidefinite, then P_0 is symmetric, x'P_0 x is a lower bound of the T-period
+   cost of EVERY control sequence from EVERY x, attained by u_t = -F_t x_t with the policies consumed
+   from the end of the list *)
+Theorem C07_lq_finite_horizon_optimal :
+  forall (n k j : nat) (beta : Q) (Qm Rm A B C N : list (list Q)),
+  msym k Qm -> msym n Rm -> 0 <= beta ->
+  forall T_ Rf pols P d,
+  msym n Rf ->
+  lq_recursion n k j beta Qm Rm A B C N T_ Rf 0 [] = Some (pols, P, d) ->
+  (forall t polst Pt dt, (t < T_)%nat ->
+      lq_recursion n k j beta Qm Rm A B C N t Rf 0 [] = Some (polst, Pt, dt) ->
+      forall v, 0 <= qform k v (lq_S1 n k beta Qm B Pt)) ->
+  msym n P /\ length pols = T_ /\
+  (forall x us, length us = T_ -> qform n x P <= horizon_cost n k beta Qm Rm A B N Rf x us) /\
+  (forall x, horizon_cost n k beta Qm Rm A B N Rf x (closed_loop_controls n k A B (rev pols) x)
+             == qform n x P).
+Proof. exact lq_finite_horizon. Qed.
+Print Assumptions C07_lq_finite_horizon_optimal.
+
+(* stationary values: if P (symmetric) solves the Riccati equation of the discounted problem
+   -- P = R - S2'F0 + beta A'PA for some F0 with S1 F0 = S2 -- then what stationary_values computes from
+   it, (F, d), is a fixed point of update_values: same F, P+ = P, d+ = d *)
+Theorem C07_lq_stationary_fixed_point :
+  forall (n k j : nat) (beta : Q) (Qm Rm A B C N : list (list Q)),
+  msym k Qm ->
+  forall P F0 F d,
+  msym n P ->
+  meq k n (mmul k k n (lq_S1 n k beta Qm B P) F0) (lq_S2 n k beta A B N P) ->
+  meq n n P (madd n n (msub n n Rm (mmul n k n (mtr k n (lq_S2 n k beta A B N P)) F0)) (lq_S3 n beta A P)) ->
+  stationary_from_P n k j beta Qm A B C N P = Some (F, d) ->
+  (~ beta == 1 \/ mtrace n (mmul n n n P (mmul n j n C (mtr n j C))) == 0) ->
+  meq k n (mmul k k n (lq_S1 n k beta Qm B P) F) (lq_S2 n k beta A B N P) /\
+  exists P' d', update_values n k j beta Qm Rm A B C N P d = Some (F, P', d') /\
+                meq n n P' P /\ d' == d.
+Proof. exact lq_stationary_fixed_point. Qed.
+Print Assumptions C07_lq_stationary_fixed_point.
+
+(* compute_sequence (finite horizon) as a function of the shocks, EVERY arithmetic instance (binary64
+   included): x_0 = x0, u_t = -F_t x_t, x_{t+1} = (A x_t + B u_t) + C w_{t+1}, where F_t is the element
+   T-1-t of the list as built, i.e. the rule produced by update number T-t *)
+Theorem C07_compute_sequence_dynamics :
+  forall (T : Type) (NT : Num T) (n k j : nat) (beta : T) (Qm Rm A B C N : list (list T))
+         T_ Rf x0 ws xs us,
+  compute_sequence_finite n k j beta Qm Rm A B C N T_ Rf x0 ws = Some (xs, us) ->
+  exists pols P d,
+    lq_recursion n k j beta Qm Rm A B C N T_ Rf nzero [] = Some (pols, P, d) /\ length pols = T_ /\
+    length xs = S T_ /\ length us = T_ /\ nth 0 xs [] = x0 /\
+    forall t, (t < T_)%nat ->
+      (exists polsi Pi di Pn dn,
+          lq_recursion n k j beta Qm Rm A B C N (T_ - 1 - t) Rf nzero [] = Some (polsi, Pi, di) /\
+          update_values n k j beta Qm Rm A B C N Pi di = Some (nth (T_ - 1 - t) pols [], Pn, dn)) /\
+      nth t us [] = vneg k (mvmul k n (nth (T_ - 1 - t) pols []) (nth t xs [])) /\
+      nth (S t) xs [] = vadd n (vadd n (mvmul n n A (nth t xs [])) (mvmul n k B (nth t us [])))
+                               (mvmul n j C (nth t ws [])).
+Proof. exact (@compute_sequence_finite_spec). Qed.
+Print Assumptions C07_compute_sequence_dynamics.
+
+(* the simulation loop itself (also the infinite-horizon branch, policies = [F]*T) *)
+Theorem C07_lq_simulate_dynamics :
+  forall (T : Type) (NT : Num T) (n k j : nat) (A B C : list (list T)) steps policies ws x xs us,
+  lq_simulate n k j A B C steps policies ws x = Some (xs, us) ->
+  (steps <= length policies)%nat /\ (steps <= length ws)%nat /\
+  length xs = S steps /\ length us = steps /\ nth 0 xs [] = x /\
+  forall t, (t < steps)%nat ->
+    nth t us [] = vneg k (mvmul k n (nth (length policies - 1 - t) policies []) (nth t xs [])) /\
+    nth (S t) xs [] = vadd n (vadd n (mvmul n n A (nth t xs [])) (mvmul n k B (nth t us [])))
+                             (mvmul n j C (nth t ws [])).
+Proof. exact (@lq_simulate_spec). Qed.
+Print Assumptions C07_lq_simulate_dynamics.
+
+(* Gauss-Jordan `solve` (the model's scipy.linalg.solve) is correct over Q: used by the theorems above *)
+Theorem C07_solve_correct : forall n m (A B X : list (list Q)),
+  solve n m A B = Some X -> meq n m (mmul n n m A X) B.
+Proof. exact solve_correct. Qed.
+Print Assumptions C07_solve_correct.
+
+(* ---- the hypotheses are satisfiable: scalar problem Q = R = A = B = Rf = 1, beta = 1/2, T = 2 *)
+Lemma msym_1 (M : list (list Q)) : msym 1 M.
+Proof. apply mtr_1x1. Qed.
+
+Example lq_finite_example :
+  (exists pols P d, lq_recursion 1 1 1 (1#2) [[1]] [[1]] [[1]] [[1]] [[0]] [[0]] 2 [[1]] 0 [] = Some (pols, P, d)) /\
+  (forall t polst Pt dt, (t < 2)%nat ->
+      lq_recursion 1 1 1 (1#2) [[1]] [[1]] [[1]] [[1]] [[0]] [[0]] t [[1]] 0 [] = Some (polst, Pt, dt) ->
+      forall v, 0 <= qform 1 v (lq_S1 1 1 (1#2) [[1]] [[1]] Pt)).
+Proof.
+  split.
+  - eexists. eexists. eexists. vm_compute. reflexivity.
+  - intros t polst Pt dt Ht Hrec v. rewrite qform_1.
+    assert (Hsq : 0 <= vget v 0 * vget v 0) by nra.
+    destruct t as [|[|t]]; [| |lia]; vm_compute in Hrec; injection Hrec as <- <- <-.
+    + assert (E : get (lq_S1 1 1 (1#2) [[1]] [[1]] [[1]]) 0 0 == 3#2) by (vm_compute; reflexivity).
+      rewrite E. nra.
+    + assert (E : get (lq_S1 1 1 (1#2) [[1]] [[1]] [[4#3]]) 0 0 == 5#3) by (vm_compute; reflexivity).
+      rewrite E. nra.
+Qed.
+
+(* a stationary example: beta = 1/2, A = B = Q = 1, R = 1/2, N = 0, C = 1: P = 1 solves P = R + beta P - (beta P)^2/(1 + beta P) *)
+Example lq_stationary_example :
+  let P := [[1]] in let F0 := [[1#3]] in
+  meq 1 1 (mmul 1 1 1 (lq_S1 1 1 (1#2) [[1]] [[1]] P) F0) (lq_S2 1 1 (1#2) [[1]] [[1]] [[0]] P) /\
+  meq 1 1 P (madd 1 1 (msub 1 1 [[2#3]] (mmul 1 1 1 (mtr 1 1 (lq_S2 1 1 (1#2) [[1]] [[1]] [[0]] P)) F0)) (lq_S3 1 (1#2) [[1]] P)) /\
+  stationary_from_P 1 1 1 (1#2) [[1]] [[1]] [[1]] [[1]] [[0]] P <> None.
+Proof.
+  split; [|split].
+  - intros i j Hi Hj. assert (i = 0%nat) by lia. assert (j = 0%nat) by lia. subst. vm_compute. reflexivity.
+  - intros i j Hi Hj. assert (i = 0%nat) by lia. assert (j = 0%nat) by lia. subst. vm_compute. reflexivity.
+  - vm_compute. discriminate.
+Qed.
+
+(* infinite horizon, algebraic core (every dimension): with the stationary P as terminal value no control
+   sequence of any length, from any state, costs less than x'Px, and u = -Fx attains x'Px for every T *)
+Theorem C07_lq_stationary_no_better_sequence_partial :
+  forall (n k : nat) (beta : Q) (Qm Rm A B N P F : list (list Q)),
+  msym k Qm -> msym n P -> 0 <= beta ->
+  meq k n (mmul k k n (lq_S1 n k beta Qm B P) F) (lq_S2 n k beta A B N P) ->
+  meq n n P (madd n n (msub n n Rm (mmul n k n (mtr k n (lq_S2 n k beta A B N P)) F)) (lq_S3 n beta A P)) ->
+  (forall v, 0 <= qform k v (lq_S1 n k beta Qm B P)) ->
+  (forall us x, qform n x P <= horizon_cost n k beta Qm Rm A B N P x us) /\
+  (forall T_ x, horizon_cost n k beta Qm Rm A B N P x (closed_loop_controls n k A B (repeat F T_) x)
+                == qform n x P).
+Proof.
+  intros n k beta Qm Rm A B N P F HQ HP Hb HF Hric Hpsd. split.
+  - intros us x. exact (lq_stationary_lower_bound n k beta Qm Rm A B N P F HQ HP Hb HF Hric Hpsd us x).
+  - intros T_ x. exact (lq_stationary_rule_attains n k beta Qm Rm A B N P F HQ HP HF Hric T_ x).
+Qed.
+Print Assumptions C07_lq_stationary_no_better_sequence_partial.
+
+(* infinite horizon with terminal value 0: for any rule G under which the discounted terminal value
+   beta^T x_T'P x_T vanishes (true for stabilising G; that implication needs spectral radii and is NOT
+   proved -- the oracle checks P_G - P >= 0 on sampled stabilising perturbations), the long-horizon cost
+   of G is at least x'Px up to any eps *)
+Theorem C07_lq_infinite_horizon_optimal_partial :
+  forall (n k : nat) (beta : Q) (Qm Rm A B N P F G : list (list Q)) (x : list Q),
+  msym k Qm -> msym n P -> 0 <= beta ->
+  meq k n (mmul k k n (lq_S1 n k beta Qm B P) F) (lq_S2 n k beta A B N P) ->
+  meq n n P (madd n n (msub n n Rm (mmul n k n (mtr k n (lq_S2 n k beta A B N P)) F)) (lq_S3 n beta A P)) ->
+  (forall v, 0 <= qform k v (lq_S1 n k beta Qm B P)) ->
+  (forall eps, 0 < eps -> exists T0, forall T_, (T0 <= T_)%nat ->
+     horizon_cost n k beta Qm Rm A B N P x (closed_loop_controls n k A B (repeat G T_) x)
+     - horizon_cost n k beta Qm Rm A B N (mzero n n) x (closed_loop_controls n k A B (repeat G T_) x) <= eps) ->
+  forall eps, 0 < eps -> exists T0, forall T_, (T0 <= T_)%nat ->
+     qform n x P - eps
+     <= horizon_cost n k beta Qm Rm A B N (mzero n n) x (closed_loop_controls n k A B (repeat G T_) x).
+Proof. exact lq_infinite_horizon_optimal. Qed.
+Print Assumptions C07_lq_infinite_horizon_optimal_partial.
+
+(* Full infinite-horizon statement, NOT proved: every rule G whose discounted closed loop is stable
+   (formulated without eigenvalues: the state it generates is discounted to zero) has vanishing terminal
+   value, hence (by the theorem above) cost >= x'Px.  Oracle only; also oracle only: the expectation
+   semantics of d under noise and the RBLQ / nnash / LQMarkov statements. *)
+Definition C07_lq_stabilising_terminal_vanishes_full : Prop :=
+  forall (n k : nat) (beta : Q) (Qm Rm A B N P G : list (list Q)) (x : list Q),
+  0 <= beta -> msym n P ->
+  (forall eps, 0 < eps -> exists T0, forall T_, (T0 <= T_)%nat ->
+     horizon_cost n k beta (mzero k k) (mid n) A B (mzero k n) (mid n) x (closed_loop_controls n k A B (repeat G T_) x)
+     - horizon_cost n k beta (mzero k k) (mid n) A B (mzero k n) (mzero n n) x (closed_loop_controls n k A B (repeat G T_) x) <= eps) ->
+  forall eps, 0 < eps -> exists T0, forall T_, (T0 <= T_)%nat ->
+     horizon_cost n k beta Qm Rm A B N P x (closed_loop_controls n k A B (repeat G T_) x)
+     - horizon_cost n k beta Qm Rm A B N (mzero n n) x (closed_loop_controls n k A B (repeat G T_) x) <= eps.
